@@ -1478,7 +1478,7 @@ Lemma traffic_react w p k : forall s s',
   awf s -> Inv w s -> areact_n k s p = Some s' ->
   aconn s' = aconn s /\ (sent_react k s p + phi w s' <= phi w s)%nat.
 Proof.
-  induction k as [|k IHk]; intros s s' Hwf HI Hstep; simpl in Hstep |- *.
+  induction k as [|k IHk]; intros s s' Hwf HI Hstep; cbn [areact_n sent_react] in Hstep |- *.
   - inversion Hstep; subst. split; [reflexivity|lia].
   - destruct (areact1 s p) as [s2|] eqn:H2; [|discriminate].
     destruct (traffic_step1 w s (AReact1 p) s2 I Hwf HI H2) as [Hc2 Hle2].
@@ -1505,9 +1505,9 @@ Proof.
       - simpl in Hstep. simpl sent_by.
         destruct (ap s !! p) as [x|] eqn:Hx; [|discriminate]. unfold pevents. rewrite (getp_exists _ _ _ Hx).
         destruct (traffic_react w p (events x) s s1 Hwf HI Hstep) as [Hc Hle]. split; [exact Hc|]. lia.
-      - destruct (traffic_step1 w s (AReact1 p) s1 I Hwf HI Hstep) as [Hc Hle]. split; [exact Hc|]. simpl sent_by. lia.
-      - destruct (traffic_step1 w s (ADeliver src dst) s1 I Hwf HI Hstep) as [Hc Hle]. split; [exact Hc|]. simpl sent_by. lia.
-      - destruct (traffic_step1 w s (ADownload p) s1 I Hwf HI Hstep) as [Hc Hle]. split; [exact Hc|]. simpl sent_by. lia. }
+      - destruct (traffic_step1 w s (AReact1 p) s1 I Hwf HI Hstep) as [Hc Hle]. split; [exact Hc|]. cbn [sent_by]. lia.
+      - destruct (traffic_step1 w s (ADeliver src dst) s1 I Hwf HI Hstep) as [Hc Hle]. split; [exact Hc|]. cbn [sent_by]. lia.
+      - destruct (traffic_step1 w s (ADownload p) s1 I Hwf HI Hstep) as [Hc Hle]. split; [exact Hc|]. cbn [sent_by]. lia. }
     destruct H1 as [Hc1 Hle1]. rewrite Hc1 in *. split; [exact Hcn|].
     rewrite published_cons. destruct e; simpl length; lia.
 Qed.
@@ -1547,13 +1547,13 @@ Proof.
   assert (Hop : only_publisher p (APublish p c :: rest)) by (unfold only_publisher; simpl; rewrite H2; repeat constructor).
   assert (Hnj : no_joins (APublish p c :: rest)) by (unfold no_joins; simpl; exact H3).
   assert (Hj : joins_ok p (APublish p c :: rest)).
-  { unfold joins_ok, fresh_joins. rewrite Hnj. destruct (decide (p = host)); [constructor|reflexivity]. }
+  { unfold joins_ok, fresh_joins. destruct (decide (p = host)); [rewrite Hnj; apply Forall_nil_2|exact Hnj]. }
   assert (Hops : ops_at_quiescence (ainit n) (APublish p c :: rest) = true).
   { cbn [ops_at_quiescence]. cbn [arun] in Hrun. destruct (astep (ainit n) (APublish p c)) as [s1|]; [|discriminate].
     rewrite H4. simpl. rewrite andb_true_r. apply bool_decide_eq_true. apply ainit_quiescent. }
   destruct (drain_separated_never_S7 n p _ s' Hrun Hop Hj Hops) as [Hk _].
   pose proof (asset_messages_bounded_run n p _ s' Hrun Hop Hnj Hk) as Hle.
-  rewrite published_cons, H1 in Hle. simpl in Hle. lia.
+  rewrite published_cons, H1 in Hle. cbn [length] in Hle. lia.
 Qed.
 Print Assumptions asset_messages_bounded.
 
@@ -1563,3 +1563,244 @@ Example traffic_tight :
   total_sent (ainit 3) [APublish 0 10; AReact 0; ADeliver 0 1; ADeliver 0 2; ADeliver 0 3;
                         ADownload 1; ADownload 2; ADownload 3; AReact 1; AReact 2; AReact 3] = 3%nat.
 Proof. vm_compute. auto. Qed.
+
+(* ================================================================================================
+   Part 6: joins.  A fresh client c joins in a quiescent state in which every peer holds v.
+   [JInv c v s]: everybody but c is idle and holds v, the only traffic is the snapshot announcement on
+   (host, c) and c's download from the host, at most one of them, covered by one token.
+   ================================================================================================ *)
+
+Record JInv (c : peer) (v : option content) (s : astate) : Prop := {
+  j_ch : c <> host;
+  j_frozen : forall q, q <> c ->
+    (peers s q -> pstore s q = v) /\ pevents s q = 0%nat /\ ptok s q = false /\ ppending s q = [];
+  j_links : forall a b, (a, b) <> (host, c) -> link s a b = [];
+  j_owner_l : forall o, o ∈ link s host c -> o = host;
+  j_owner_p : forall o, o ∈ ppending s c -> o = host;
+  j_served_c : pserved s c = None;
+  j_cnt : (length (link s host c) + length (ppending s c) + pevents s c <= 1)%nat;
+  j_tok : pevents s c = 0%nat /\ ptok s c = false \/ pevents s c = 1%nat /\ ptok s c = true;
+  j_ev_store : pevents s c <> 0%nat -> pstore s c <> None;
+  j_host : (v <> None /\ pserved s host = v) \/ (link s host c = [] /\ ppending s c = []);
+  j_store : pstore s c = v \/ link s host c <> [] \/ ppending s c <> []
+}.
+
+Lemma jinv_ext c v s s' :
+  (forall q, getp s' q = getp s q) -> (forall a b, link s' a b = link s a b) -> aconn s' = aconn s ->
+  JInv c v s -> JInv c v s'.
+Proof.
+  intros Hg Hl Hc HJ. destruct HJ.
+  constructor; unfold peers, pstore, pevents, ptok, pserved, ppending in *; intros; rewrite ?Hg, ?Hl, ?Hc in *; eauto.
+Qed.
+
+Lemma jinv_step1 c v s e s' :
+  match e with AReact1 _ | ADeliver _ _ | ADownload _ => True | _ => False end ->
+  awf s -> JInv c v s -> astep s e = Some s' -> JInv c v s' /\ aconn s' = aconn s.
+Proof.
+  intros He Hwf HJ Hstep. pose proof (wf_nodup s Hwf) as Hnd.
+  destruct e as [p x|p|p|src dst|p|c' pre]; try contradiction.
+  - (* AReact1 *)
+    apply step_react1 in Hstep as (Hex & Hc & _ & Hp & Hq & Hl); [|exact Hnd]. split; [|exact Hc].
+    destruct (react1_cases (getp s p)) as [[E0 E]|[(k & E0 & E1 & E)|[(k & x & E0 & E1 & E2 & E)|(k & x & E0 & E1 & E2 & E)]]].
+    + eapply jinv_ext; [| |exact Hc|exact HJ].
+      * intros q. destruct (decide (q = p)) as [->|Hne]; [rewrite Hp, E; reflexivity|apply Hq; exact Hne].
+      * intros a b. rewrite Hl, E. cbn [snd]. cdec as [[Hf _]|_]; [discriminate|reflexivity].
+    + exfalso. destruct (decide (p = c)) as [->|Hne].
+      * eapply (j_ev_store _ _ _ HJ); [unfold pevents; rewrite E0; discriminate|exact E1].
+      * destruct (j_frozen _ _ _ HJ p Hne) as (_ & H0 & _). unfold pevents in H0. congruence.
+    + assert (Hpc : p = c).
+      { destruct (decide (p = c)) as [?|Hne]; [assumption|].
+        destruct (j_frozen _ _ _ HJ p Hne) as (_ & H0 & _). unfold pevents in H0. congruence. }
+      subst p.
+      assert (Hk : k = 0%nat).
+      { destruct (j_tok _ _ _ HJ) as [[H0 _]|[H1 _]]; unfold pevents in *; [congruence|lia]. }
+      subst k. rewrite E in Hp, Hl. cbn [fst snd] in Hp, Hl.
+      assert (Hlk : forall a b, link s' a b = link s a b).
+      { intros a b. rewrite Hl. cdec as [[Hf _]|_]; [discriminate|reflexivity]. }
+      assert (Hothers : forall q, q <> c -> getp s' q = getp s q) by exact Hq.
+      destruct HJ. constructor; unfold peers; intros; rewrite ?Hlk, ?Hc in *; eauto.
+      * unfold pstore, pevents, ptok, ppending. rewrite Hothers by assumption. apply j_frozen0. assumption.
+      * unfold ppending in H. rewrite Hp in H. simpl in H. apply j_owner_p0. exact H.
+      * unfold pserved. rewrite Hp. exact j_served_c0.
+      * unfold ppending, pevents. rewrite Hp. simpl. unfold ppending, pevents in j_cnt0. lia.
+      * left. unfold pevents, ptok. rewrite Hp. auto.
+      * unfold pevents in H. rewrite Hp in H. simpl in H. congruence.
+      * unfold pserved, ppending. rewrite (Hothers host) by auto. rewrite Hp. exact j_host0.
+      * unfold pstore, ppending. rewrite Hp. simpl. rewrite <- E1. exact j_store0.
+    + exfalso. destruct (decide (p = c)) as [->|Hne].
+      * destruct (j_tok _ _ _ HJ) as [[H0 _]|[_ H1]]; unfold pevents, ptok in *; congruence.
+      * destruct (j_frozen _ _ _ HJ p Hne) as (_ & H0 & _). unfold pevents in H0. congruence.
+  - (* ADeliver *)
+    apply step_deliver in Hstep as (o & rest & Hl0 & Hd & Hc & _ & Hp & Hq & Hl); [|exact Hnd]. split; [|exact Hc].
+    assert (Hsd : (src, dst) = (host, c)).
+    { destruct (decide ((src, dst) = (host, c))) as [?|Hne]; [assumption|].
+      rewrite (j_links _ _ _ HJ src dst Hne) in Hl0. discriminate. }
+    inversion Hsd; subst src dst. pose proof (j_ch _ _ _ HJ) as Hch.
+    assert (Hoh : o = host) by (apply (j_owner_l _ _ _ HJ); rewrite Hl0; left). subst o.
+    assert (Hp' : getp s' c = APeer (pstore s c) (pevents s c) (ptok s c) None (ppending s c ++ [host])).
+    { rewrite Hp. unfold request_peer. pose proof (j_served_c _ _ _ HJ) as Hs. unfold pserved in Hs. rewrite Hs. reflexivity. }
+    assert (Hlk : forall a b, link s' a b = if decide ((a, b) = (host, c)) then rest else link s a b).
+    { intros a b. rewrite Hl. destruct (decide (c = host /\ _)) as [[? _]|_]; [contradiction|]. apply app_nil_r. }
+    assert (Hflight : v <> None /\ pserved s host = v).
+    { destruct (j_host _ _ _ HJ) as [H|[H _]]; [exact H|]. rewrite H in Hl0. discriminate. }
+    destruct HJ. constructor; unfold peers; intros; rewrite ?Hc in *; eauto.
+    + unfold pstore, pevents, ptok, ppending. rewrite Hq by assumption. apply j_frozen0. assumption.
+    + rewrite Hlk. destruct (decide ((a, b) = (host, c))); [contradiction|apply j_links0; assumption].
+    + rewrite Hlk in H. destruct (decide ((host, c) = (host, c))) as [_|?]; [|congruence].
+      apply j_owner_l0. rewrite Hl0. right. exact H.
+    + unfold ppending in H. rewrite Hp' in H. simpl in H. apply elem_of_app in H as [H|H]; [apply j_owner_p0; exact H|].
+      apply elem_of_list_singleton in H. exact H.
+    + unfold pserved. rewrite Hp'. reflexivity.
+    + rewrite Hlk. destruct (decide ((host, c) = (host, c))) as [_|?]; [|congruence].
+      unfold ppending, pevents. rewrite Hp'. cbn [pending events]. rewrite app_length. cbn [length].
+      rewrite Hl0 in j_cnt0. cbn [length] in j_cnt0. fold (ppending s c). fold (pevents s c). lia.
+    + unfold pevents, ptok. rewrite Hp'. exact j_tok0.
+    + unfold pevents, pstore in *. rewrite Hp' in *. simpl in *. auto.
+    + left. unfold pserved. rewrite Hq by auto. exact Hflight.
+    + right. right. unfold ppending. rewrite Hp'. simpl. apply app_not_nil_r. discriminate.
+  - (* ADownload *)
+    apply step_download in Hstep as (o & rest & Hp0 & Hex & Hc & Hl & _ & Hp & Hq). split; [|exact Hc].
+    assert (Hlk : forall a b, link s' a b = link s a b) by (intros; unfold link; rewrite Hl; reflexivity).
+    assert (Hpc : p = c).
+    { destruct (decide (p = c)) as [?|Hne]; [assumption|].
+      destruct (j_frozen _ _ _ HJ p Hne) as (_ & _ & _ & H0). rewrite H0 in Hp0. discriminate. }
+    subst p. pose proof (j_ch _ _ _ HJ) as Hch.
+    assert (Hoh : o = host) by (apply (j_owner_p _ _ _ HJ); rewrite Hp0; left). subst o.
+    assert (Hflight : v <> None /\ pserved s host = v).
+    { destruct (j_host _ _ _ HJ) as [H|[_ H]]; [exact H|]. rewrite H in Hp0. discriminate. }
+    destruct Hflight as [Hv Hsh]. destruct v as [x|]; [|congruence].
+    pose proof (j_cnt _ _ _ HJ) as Hcnt. rewrite Hp0 in Hcnt. cbn [length] in Hcnt.
+    assert (He0 : pevents s c = 0%nat) by lia.
+    assert (Hl0 : link s host c = []) by (destruct (link s host c); [reflexivity|simpl in Hcnt; lia]).
+    assert (Hr : rest = []) by (destruct rest; [reflexivity|simpl in Hcnt; lia]).
+    assert (Hp' : getp s' c = APeer (Some x) 1 true (pserved s c) []).
+    { rewrite Hp, Hsh. unfold download_peer. unfold pevents, ppending in *. rewrite He0, Hp0, Hr. reflexivity. }
+    destruct HJ. constructor; unfold peers; intros; rewrite ?Hlk, ?Hc in *; eauto.
+    + unfold pstore, pevents, ptok, ppending. rewrite Hq by assumption. apply j_frozen0. assumption.
+    + unfold ppending in H. rewrite Hp' in H. inversion H.
+    + unfold pserved. rewrite Hp'. exact j_served_c0.
+    + unfold ppending, pevents. rewrite Hp', Hl0. simpl. lia.
+    + right. unfold pevents, ptok. rewrite Hp'. auto.
+    + unfold pstore. rewrite Hp'. discriminate.
+    + left. split; [discriminate|]. unfold pserved. rewrite Hq by auto. exact Hsh.
+    + left. unfold pstore. rewrite Hp'. reflexivity.
+Qed.
+
+Lemma jinv_run c v tr : forall s s',
+  awf s -> JInv c v s -> Forall plain tr -> arun s tr = Some s' ->
+  awf s' /\ JInv c v s' /\ aconn s' = aconn s.
+Proof.
+  induction tr as [|e tr IH]; intros s s' Hwf HJ Hpl Hrun.
+  - simpl in Hrun. inversion Hrun; subst. auto.
+  - cbn [arun] in Hrun. destruct (astep s e) as [s1|] eqn:Hstep; [|discriminate].
+    apply Forall_cons in Hpl as [He Hpl].
+    assert (H1 : JInv c v s1 /\ aconn s1 = aconn s).
+    { destruct e as [p x|p|p|src dst|p|c' pre]; try (simpl in He; contradiction);
+        try (eapply jinv_step1; [|exact Hwf|exact HJ|exact Hstep]; exact I).
+      apply step_react_runs in Hstep.
+      pose (P := fun s1 => awf s1 /\ JInv c v s1 /\ aconn s1 = aconn s).
+      assert (HP : P s1); [|destruct HP as (_ & H1 & H2); auto].
+      eapply (react1s_ind P p); [|split; [exact Hwf|split; [exact HJ|reflexivity]]|exact Hstep].
+      intros s2 s3 (Hw2 & HJ2 & Hc2) H23. split; [eapply step_wf; eauto|].
+      destruct (jinv_step1 c v s2 (AReact1 p) s3 I Hw2 HJ2 H23) as [HJ3 Hc3]. split; [exact HJ3|congruence]. }
+    destruct H1 as [HJ1 Hc1].
+    destruct (IH s1 s' (step_wf _ _ _ Hwf Hstep) HJ1 Hpl Hrun) as (Hwf' & HJ' & Hc'). split; [exact Hwf'|]. split; [exact HJ'|congruence].
+Qed.
+
+Lemma jinv_after_join s c v s2 :
+  awf s -> aquiescent s -> (forall q, peers s q -> pstore s q = v) -> astep s (AJoin c None) = Some s2 ->
+  JInv c v s2 /\ aconn s2 = aconn s ++ [c].
+Proof.
+  intros Hwf Hqs Hag Hstep. apply step_join in Hstep as (Hch & Hcn & Hnone & Hc & _ & Hpc & Hph & Hq & Hl).
+  split; [|exact Hc].
+  assert (Hvh : pstore s host = v) by (apply Hag; left; reflexivity).
+  assert (Hgetq : forall q, q <> c -> pstore s2 q = pstore s q /\ pevents s2 q = pevents s q /\ ptok s2 q = ptok s q /\ ppending s2 q = ppending s q).
+  { intros q Hne. unfold pstore, pevents, ptok, ppending. destruct (decide (q = host)) as [->|Hnh].
+    - rewrite Hph. simpl. auto.
+    - rewrite Hq by assumption. auto. }
+  assert (Hlc : link s2 host c = snapshot s).
+  { rewrite Hl. destruct (decide ((host, c) = (host, c))) as [_|?]; [|congruence]. rewrite (quiescent_link s _ _ Hqs). reflexivity. }
+  constructor; unfold peers; intros.
+  - exact Hch.
+  - destruct (Hgetq q H) as (-> & -> & -> & ->). destruct (quiescent_peer s q Hqs) as (-> & -> & ->).
+    split; [|auto]. intros Hp. apply Hag. rewrite Hc in Hp. destruct Hp as [Hp|Hp]; [left; exact Hp|].
+    apply elem_of_app in Hp as [Hp|Hp]; [right; exact Hp|]. apply elem_of_list_singleton in Hp. contradiction.
+  - rewrite Hl. destruct (decide ((a, b) = (host, c))); [contradiction|]. apply quiescent_link. exact Hqs.
+  - rewrite Hlc in H. unfold snapshot in H. destruct (pstore s host); [apply elem_of_list_singleton in H; exact H|inversion H].
+  - unfold ppending in H. rewrite Hpc in H. inversion H.
+  - unfold pserved. rewrite Hpc. reflexivity.
+  - rewrite Hlc. unfold ppending, pevents. rewrite Hpc. simpl. unfold snapshot. destruct (pstore s host); simpl; lia.
+  - left. unfold pevents, ptok. rewrite Hpc. auto.
+  - unfold pevents in H. rewrite Hpc in H. simpl in H. congruence.
+  - rewrite Hlc. unfold snapshot, pserved, ppending. rewrite Hph, Hpc. unfold serve_store. simpl. fold (pstore s host).
+    rewrite Hvh. destruct v as [x|]; [left; split; [discriminate|reflexivity]|right; auto].
+  - rewrite Hlc. unfold snapshot, pstore at 1. rewrite Hpc. simpl. rewrite Hvh.
+    destruct v as [x|]; [right; left; discriminate|left; reflexivity].
+Qed.
+
+Lemma jinv_quiescent c v s : JInv c v s -> aquiescent s -> forall q, peers s q -> pstore s q = v.
+Proof.
+  intros HJ Hq q Hp. destruct (decide (q = c)) as [->|Hne]; [|apply (j_frozen _ _ _ HJ q Hne); exact Hp].
+  destruct (j_store _ _ _ HJ) as [H|[H|H]]; [exact H| |].
+  - rewrite (quiescent_link s _ _ Hq) in H. contradiction.
+  - destruct (quiescent_peer s c Hq) as (_ & _ & H'). contradiction.
+Qed.
+
+(* a fresh client joining in ANY quiescent state in which all peers agree ends up, at quiescence, with
+   the same content -- whatever happened before (in particular whoever the publishers were) *)
+Theorem join_from_agreement s c v s2 tr2 s' :
+  awf s -> aquiescent s -> (forall q, peers s q -> pstore s q = v) ->
+  astep s (AJoin c None) = Some s2 -> Forall plain tr2 -> arun s2 tr2 = Some s' -> aquiescent s' ->
+  c ∈ aconn s' /\ forall q, peers s' q -> pstore s' q = v.
+Proof.
+  intros Hwf Hqs Hag Hstep Hpl Hrun Hq'.
+  destruct (jinv_after_join s c v s2 Hwf Hqs Hag Hstep) as [HJ2 Hc2].
+  destruct (jinv_run c v tr2 s2 s' (step_wf _ _ _ Hwf Hstep) HJ2 Hpl Hrun) as (_ & HJ' & Hc').
+  split; [rewrite Hc', Hc2; apply elem_of_app; right; apply elem_of_list_singleton; reflexivity|].
+  apply (jinv_quiescent c v s' HJ' Hq').
+Qed.
+Print Assumptions join_from_agreement.
+
+Lemma arun_app s tr1 tr2 : arun s (tr1 ++ tr2) = match arun s tr1 with Some s1 => arun s1 tr2 | None => None end.
+Proof. revert s. induction tr1 as [|e tr1 IH]; intros s; simpl; [reflexivity|]. destruct (astep s e); auto. Qed.
+
+Lemma ops_app s tr1 tr2 s1 :
+  arun s tr1 = Some s1 -> ops_at_quiescence s (tr1 ++ tr2) = true ->
+  ops_at_quiescence s tr1 = true /\ ops_at_quiescence s1 tr2 = true.
+Proof.
+  revert s. induction tr1 as [|e tr1 IH]; intros s Hrun Hops; simpl in Hrun.
+  - inversion Hrun; subst. auto.
+  - cbn [app ops_at_quiescence] in Hops |- *. destruct (astep s e) as [s2|]; [|discriminate].
+    apply andb_true_iff in Hops as [H1 H2]. destruct (IH s2 Hrun H2) as [H3 H4]. rewrite H1, H3. auto.
+Qed.
+
+(* join_gets_asset: after a drain-separated single-publisher history (host or client), a fresh client
+   that joins in a quiescent state ends with the host's content, which is the last published one *)
+Theorem join_gets_asset n w tr1 c tr2 s' :
+  arun (ainit n) (tr1 ++ AJoin c None :: tr2) = Some s' ->
+  only_publisher w tr1 -> joins_ok w tr1 -> ops_at_quiescence (ainit n) (tr1 ++ AJoin c None :: tr2) = true ->
+  Forall plain tr2 -> aquiescent s' ->
+  c ∈ aconn s' /\ pstore s' c = pstore s' host /\ forall q, peers s' q -> pstore s' q = last (published tr1).
+Proof.
+  intros Hrun Hop Hj Hops Hpl Hq'. rewrite arun_app in Hrun.
+  destruct (arun (ainit n) tr1) as [s1|] eqn:Hrun1; [|discriminate]. cbn [arun] in Hrun.
+  destruct (astep s1 (AJoin c None)) as [s2|] eqn:Hstep; [|discriminate].
+  destruct (ops_app _ _ _ _ Hrun1 Hops) as [Hops1 Hops2]. cbn [ops_at_quiescence] in Hops2. rewrite Hstep in Hops2.
+  apply andb_true_iff in Hops2 as [Hq1 _]. simpl in Hq1. apply bool_decide_eq_true in Hq1.
+  pose proof (C06_drain_separated_overwrites_replicate n w tr1 s1 Hrun1 Hop Hj Hops1 Hq1) as Hag.
+  destruct (join_from_agreement s1 c _ s2 tr2 s' (run_wf _ _ _ (ainit_wf n) Hrun1) Hq1 Hag Hstep Hpl Hrun Hq') as [Hin Hall].
+  split; [exact Hin|]. split; [|exact Hall]. rewrite (Hall c (or_intror Hin)), (Hall host (or_introl eq_refl)). reflexivity.
+Qed.
+Print Assumptions join_gets_asset.
+
+Example join_gets_asset_nonvacuous :
+  let tr1 := [APublish 1 10; AReact 1; ADeliver 1 0; ADownload 0; ADeliver 0 2; AReact 0; ADownload 2; AReact 2;
+              APublish 1 20; AReact 1; ADeliver 1 0; ADeliver 0 2; ADownload 2; ADownload 0; AReact 0; AReact 2] in
+  let tr2 := [ADeliver 0 3; ADownload 3; AReact 3] in
+  only_publisher 1 tr1 /\ joins_ok 1 tr1 /\ ops_at_quiescence (ainit 2) (tr1 ++ AJoin 3 None :: tr2) = true /\
+  Forall plain tr2 /\
+  (fun s => aview s [0; 1; 2; 3]) <$> arun (ainit 2) (tr1 ++ AJoin 3 None :: tr2)
+  = Some ([Some 20; Some 20; Some 20; Some 20], true).
+Proof.
+  split; [only_pub|]. split; [reflexivity|]. split; [vm_compute; reflexivity|]. split; [repeat constructor|vm_compute; reflexivity].
+Qed.
